@@ -121,6 +121,7 @@ func (e *Engine) Of(fn *ssa.Function) *Fn {
 	interval.DebugRel = Debug
 	c.Q.Param = func(p *ssa.Parameter) interval.Iv { return e.param(p) }
 	c.Q.ParamField = func(p *ssa.Parameter, path string) interval.Iv { return e.paramField(p, path) }
+	c.Q.FreeField = func(fv *ssa.FreeVar, path string) interval.Iv { return e.freeField(fv, path) }
 	c.Q.Callee = func(q *interval.Q, call *ssa.Call, at *ssa.BasicBlock) (interval.Iv, bool) {
 		return e.callResult(c, call, at)
 	}
@@ -1021,6 +1022,79 @@ func (e *Engine) paramField(p *ssa.Parameter, path string) interval.Iv {
 	for k, s := range sites {
 		a := argFor(s.Site, fn, p)
 		iv := e.fieldOfValue(e.Of(s.Caller.Func), a, path, s.Site)
+		if k == 0 {
+			out = iv
+		} else {
+			out = out.Hull(iv)
+		}
+	}
+	e.fmemo[key] = out
+	return out
+}
+
+// freeField: interval of (field path of) a captured variable when closure
+// fv.Parent() is entered: the hull, over the closure's call sites, of the
+// variable's value just before the call. Only for a closure whose every use
+// is a direct call in the function that creates it (it cannot run later).
+func (e *Engine) freeField(fv *ssa.FreeVar, path string) interval.Iv {
+	key := fmt.Sprintf("fv%p.%s", fv, path)
+	if iv, ok := e.fmemo[key]; ok {
+		return iv
+	}
+	if e.fbusy[key] || e.depth > 12 {
+		return interval.Iv{}
+	}
+	e.fbusy[key] = true
+	e.depth++
+	defer func() { delete(e.fbusy, key); e.depth-- }()
+	clo := fv.Parent()
+	par := clo.Parent()
+	cell := ssau.FreeVarCell(fv)
+	if par == nil || cell == nil || cell.Parent() != par {
+		return interval.Iv{}
+	}
+	var calls []*ssa.Call
+	escapes := false
+	ssau.ForEachInstr(par, false, func(in ssa.Instruction) {
+		mc, ok := in.(*ssa.MakeClosure)
+		if !ok || mc.Fn != ssa.Value(clo) {
+			return
+		}
+		for _, ref := range *mc.Referrers() {
+			switch r := ref.(type) {
+			case *ssa.Call:
+				if r.Common().Value == ssa.Value(mc) {
+					calls = append(calls, r)
+				} else {
+					escapes = true
+				}
+			case *ssa.DebugRef:
+			default:
+				escapes = true
+			}
+		}
+	})
+	if escapes || len(calls) == 0 {
+		e.fmemo[key] = interval.Iv{}
+		return interval.Iv{}
+	}
+	pc := e.Of(par)
+	var out interval.Iv
+	for k, call := range calls {
+		var mk, loc string
+		if path == "" {
+			mk, loc = symx.Cell(cell)
+		} else {
+			mk, loc = symx.CellField(cell, path)
+		}
+		if mk == "" {
+			return interval.Iv{}
+		}
+		ver := pc.F.VersionBefore(call, mk)
+		iv := pc.Q.MemAt(mk, loc, ver, call.Block())
+		if Debug {
+			fmt.Printf("freeField %s.%s at call %s: key=%s loc=%s ver=%s -> %+v\n", fv.Name(), path, call, mk, loc, ver, iv)
+		}
 		if k == 0 {
 			out = iv
 		} else {
